@@ -77,6 +77,10 @@ class EdgeLandmark(BaseEdge):
         pose_type = type(self.vertices[0].pose)
         point_type = type(self.vertices[1].pose)
 
+        # A landmark is a point that is observed from a pose of the same spatial dimension
+        if (pose_type, point_type) not in [(PoseSE2, PoseR2), (PoseSE3, PoseR3), (PoseR2, PoseR2), (PoseR3, PoseR3)]:
+            return False
+
         # The offset must be the same type as the first pose, and the estimate must be the same type as the second pose
         if not isinstance(self.offset, pose_type) or not isinstance(self.estimate, point_type):
             return False
